@@ -20,3 +20,18 @@ def pmap(fn, items, jobs=None, chunksize=None):
     cs = chunksize or max(1, min(64, len(items) // (jobs * 8) or 1))
     with ctx.Pool(jobs) as pool:
         return pool.map(_call, [(fn, it) for it in items], chunksize=cs)
+
+
+def run_groups(rep, groups, runfn, only=None, jobs=None):
+    """run all groups' cases through one pool (pool start-up dominates when groups are small)"""
+    names, flat = [], []
+    for name, (cases, ex) in groups.items():
+        if only and only not in name:
+            continue
+        names.append((name, len(cases), ex))
+        flat.extend(cases)
+    results = pmap(runfn, flat, jobs=jobs, chunksize=max(1, min(32, len(flat) // ((jobs or JOBS) * 16) or 1)))
+    pos = 0
+    for name, n, ex in names:
+        rep.add_cases(name, results[pos:pos + n], exhaustive=ex)
+        pos += n
